@@ -51,14 +51,24 @@ func main() {
 		name     string
 		locks    bool // announce Lock/RLock and releases
 		accesses bool // announce shared-map accesses
-	}{{filepath.Join("encoding", "osm"), "osm", true, true}, {"route", "route", false, true}} {
+		slices   bool // follow slice-typed struct fields too
+	}{{filepath.Join("encoding", "osm"), "osm", true, true, false}, {"route", "route", false, true, true}} {
 		announceLocks = pkg.locks
 		files, _ := filepath.Glob(filepath.Join(dst, pkg.dir, "*.go"))
 		trace, traceLocks = pkg.accesses, pkg.locks
 		mapFields, pureFuncs, pkgTypes, imports, unknownSync = map[string]bool{}, map[string]bool{}, map[string]bool{}, map[string]string{}, nil
+		sliceFields, followSlices = map[string]bool{}, pkg.slices
+		usesPool, yields = false, true
 		if trace {
 			if err := survey(files); err != nil {
 				fail(err)
+			}
+			if usesPool {
+				// what sync.Pool hands out (and whether it calls New) depends on
+				// the processor a goroutine happens to run on: a yield point in
+				// code reached through it would make schedules irreproducible
+				yields = false
+				fmt.Printf("hookfill: %s: no statement-level yield points: the package uses sync.Pool\n", pkg.name)
 			}
 			if len(unknownSync) > 0 && pkg.locks {
 				note := "constructs the happens-before tracking does not cover: " + strings.Join(unknownSync, "; ")
@@ -68,7 +78,28 @@ func main() {
 				}
 				fmt.Println("hookfill:", note)
 			}
+			if !pkg.locks {
+				// a package whose synchronisation is not modelled at all: the
+				// access check assumes there is none between overlapping calls.
+				// Any use of sync, sync/atomic, channels or goroutines (a
+				// sync.Pool handing scratch storage from one call to the next,
+				// say) would order accesses in ways the check cannot know:
+				// announce nothing then.
+				for name, path := range imports {
+					if path == "sync" || path == "sync/atomic" || path == "golang.org/x/sync/errgroup" {
+						unknownSync = append(unknownSync, "import of "+path+" as "+name)
+					}
+				}
+				if len(unknownSync) > 0 {
+					sort.Strings(unknownSync)
+					fmt.Printf("hookfill: %s: no accesses announced: the package synchronises (%s) and that is not modelled\n", pkg.name, strings.Join(unknownSync, "; "))
+					trace = false
+				}
+			}
 			fmt.Printf("hookfill: %s: monitored map fields: %s\n", pkg.name, strings.Join(sortedKeys(mapFields), " "))
+			if followSlices {
+				fmt.Printf("hookfill: %s: monitored slice fields: %s\n", pkg.name, strings.Join(sortedKeys(sliceFields), " "))
+			}
 		}
 		for _, f := range files {
 			base := filepath.Base(f)
@@ -134,6 +165,7 @@ func lockCall(s ast.Stmt) (ast.Expr, bool, bool) {
 
 var announceLocks = true
 var yields = true
+var usesPool bool
 var yieldsInserted int
 
 func fill(path string) (int, error) {
@@ -249,6 +281,8 @@ var (
 	releasesInserted int
 	accessesInserted int
 	mapFields        = map[string]bool{} // names of map-typed struct fields of the package
+	sliceFields      = map[string]bool{} // names of slice-typed struct fields (followed only where followSlices)
+	followSlices     bool
 	pureFuncs        = map[string]bool{} // package functions/methods without synchronisation, transitively
 	pkgTypes         = map[string]bool{}
 	imports          = map[string]string{} // local name -> path
@@ -396,6 +430,11 @@ func survey(files []string) error {
 								mapFields[nm.Name] = true
 							}
 						}
+						if at, isArr := fld.Type.(*ast.ArrayType); isArr && at.Len == nil && followSlices {
+							for _, nm := range fld.Names {
+								sliceFields[nm.Name] = true
+							}
+						}
 					}
 				}
 			case *ast.FuncDecl:
@@ -406,11 +445,18 @@ func survey(files []string) error {
 				seenSync["a go statement (a goroutine the scheduler is not told about)"] = true
 			case *ast.SelectStmt:
 				seenSync["a select statement"] = true
+			case *ast.ChanType:
+				if !announceLocks {
+					seenSync["a channel"] = true
+				}
 			case *ast.SelectorExpr:
 				if id, ok := v.X.(*ast.Ident); ok && id.Obj == nil {
 					switch path := imports[id.Name]; {
 					case path == "sync/atomic":
 						seenSync["sync/atomic"] = true
+					case path == "sync" && v.Sel.Name == "Pool":
+						seenSync["sync.Pool"] = true
+						usesPool = true
 					case path == "sync" && (v.Sel.Name == "Once" || v.Sel.Name == "Map" || v.Sel.Name == "Cond" || v.Sel.Name == "WaitGroup" || v.Sel.Name == "Pool" || v.Sel.Name == "OnceFunc" || v.Sel.Name == "OnceValue"):
 						seenSync["sync."+v.Sel.Name] = true
 					}
@@ -556,7 +602,7 @@ func accesses(fset *token.FileSet, s ast.Stmt) []ast.Stmt {
 	// variable does not conflict with writes to the contents.
 	vacc := map[string]bool{} // variable accesses
 	monitored := func(sel *ast.SelectorExpr) bool {
-		if !mapFields[sel.Sel.Name] || !simpleChain(sel.X) || local[rootName(sel)] {
+		if !(mapFields[sel.Sel.Name] || sliceFields[sel.Sel.Name]) || !simpleChain(sel.X) || local[rootName(sel)] {
 			return false
 		}
 		if id, ok := sel.X.(*ast.Ident); ok && id.Obj == nil {
@@ -573,6 +619,10 @@ func accesses(fset *token.FileSet, s ast.Stmt) []ast.Stmt {
 		k := exprText(fset, sel)
 		acc[k] = acc[k] || write
 		exprs[k] = sel
+		if sliceFields[sel.Sel.Name] && !mapFields[sel.Sel.Name] {
+			// indexing a slice reads its header as well
+			vacc[k] = vacc[k] || false
+		}
 	}
 	noteVar := func(sel *ast.SelectorExpr, write bool) {
 		if !monitored(sel) {
@@ -632,7 +682,27 @@ func accesses(fset *token.FileSet, s ast.Stmt) []ast.Stmt {
 				if id, ok := v.X.(*ast.Ident); ok {
 					noteIdent(id, false)
 				}
+			case *ast.SliceExpr:
+				if sel, ok := v.X.(*ast.SelectorExpr); ok && monitored(sel) && sliceFields[sel.Sel.Name] {
+					note(sel, false)
+				}
 			case *ast.CallExpr:
+				if fs, ok := v.Fun.(*ast.SelectorExpr); ok && len(v.Args) > 0 {
+					// sort.Ints(x.f), sort.Slice(x.f, …), slices.Sort(x.f) … write the elements
+					if pk, ok := fs.X.(*ast.Ident); ok && pk.Obj == nil && (imports[pk.Name] == "sort" || imports[pk.Name] == "slices") {
+						if sel, ok := v.Args[0].(*ast.SelectorExpr); ok && monitored(sel) && sliceFields[sel.Sel.Name] {
+							note(sel, true)
+						}
+					}
+				}
+				if id, ok := v.Fun.(*ast.Ident); ok && id.Name == "copy" && len(v.Args) == 2 {
+					if sel, ok := v.Args[0].(*ast.SelectorExpr); ok && monitored(sel) && sliceFields[sel.Sel.Name] {
+						note(sel, true)
+					}
+					if sel, ok := v.Args[1].(*ast.SelectorExpr); ok && monitored(sel) && sliceFields[sel.Sel.Name] {
+						note(sel, false)
+					}
+				}
 				if id, ok := v.Fun.(*ast.Ident); ok && len(v.Args) > 0 {
 					if m, ok := v.Args[0].(*ast.Ident); ok {
 						switch id.Name {
